@@ -150,6 +150,14 @@ class _Return(Exception):
         self.value = value
 
 
+class _Continue(Exception):
+    pass
+
+
+class _Break(Exception):
+    pass
+
+
 class NeedDecision(Exception):
     """a branch on a symbolic scalar was met while the list of forced decisions is exhausted"""
 
@@ -449,6 +457,14 @@ class Interp:
             self.exec_for(fr, st)
         elif t is ast.Pass:
             return
+        elif t is ast.Continue:
+            if fr.capture is not None:
+                raise AnalysisError("continue inside a symbolic map-loop")
+            raise _Continue()
+        elif t is ast.Break:
+            if fr.capture is not None:
+                raise AnalysisError("break inside a symbolic map-loop")
+            raise _Break()
         elif t in (ast.Import, ast.ImportFrom):
             return
         elif t is ast.FunctionDef:
@@ -604,15 +620,27 @@ class Interp:
         if st.orelse:
             raise AnalysisError("for-else")
         it = self.eval(fr, st.iter)
-        if isinstance(it, (tuple, list)):
-            for v in it:
-                self.assign(fr, st.target, v, st.lineno)
+
+        def body_once():
+            """one pass of a loop over a concrete python sequence; True = break"""
+            try:
                 self.exec_block(fr, st.body)
+            except _Continue:
+                return False
+            except _Break:
+                return True
+            return False
+        if isinstance(it, (tuple, list)):
+            for v in list(it):
+                self.assign(fr, st.target, v, st.lineno)
+                if body_once():
+                    break
             return
         if isinstance(it, dict):
-            for v in it:
+            for v in list(it):
                 self.assign(fr, st.target, v, st.lineno)
-                self.exec_block(fr, st.body)
+                if body_once():
+                    break
             return
         if is_arraylike(it):
             a = snap(it)
@@ -622,7 +650,8 @@ class Interp:
                 if n.is_const():
                     for k in range(n.as_int()):
                         self.assign(fr, st.target, lo + k, st.lineno)
-                        self.exec_block(fr, st.body)
+                        if body_once():
+                            break
                     return
                 return self.exec_map_loop(fr, st, lo, n)
         raise AnalysisError(f"unsupported loop iterable at {fr.module}.py:{st.lineno}")
